@@ -39,6 +39,12 @@ def lines(tier, seed):
             out.append(m + ' eax , ' + ' '.join(s))
             out.append(m + ' ' + ' '.join(s) + ' , eax')
             out.append(m + ' DWORD PTR [ ebx + {N} ] , ' + ' '.join(s))
+        # narrower first operands (16- and 8-bit forms take other encoding paths)
+        for s in seqs[:1 + len(ALPHABET)] if tier == 'quick' else seqs[:1 + len(ALPHABET) + len(ALPHABET) ** 2]:
+            out.append(m + ' bx , ' + ' '.join(s))
+            out.append(m + ' cl , ' + ' '.join(s))
+            out.append(m + ' WORD PTR [ ebx ] , ' + ' '.join(s))
+            out.append(m + ' bx , cx , ' + ' '.join(s))
     # missing / surplus operands and separators
     for m in mn:
         out += [m, m + ' ,', m + ' eax ,', m + ' , eax', m + ' eax , ebx , ecx , edx', m + ' eax eax']
